@@ -14,7 +14,7 @@ CHECKS = {
              "conjugation rule, is symmetric and does not depend on weights; the candidate filter returns exactly the admitted indices. "
              "The decision structure is finite and fully explored; ids and weights are unbounded solver variables.",
         note="Trusted: z3, CPython, the proxy classes of /verif/symx; floats as reals (weights never reach a comparison here). "
-             "Bounds: prefix <= 2 characters, id <= 2 digits at text level (unbounded at state level), filter lists <= 2 (quick) / 3 (thorough).",
+             "Bounds: prefix <= 2 characters, id <= 2 digits at text level (unbounded at state level), filter lists <= 2 (quick) / 4 (thorough).",
         ref="DESIGN.md §4 C03"),
 }
 
@@ -34,7 +34,7 @@ for _pid, _txt, _note in [
     ("C06", "Same runs as C04 on the closed skeletons: no path ends in an exception, unwinding bound holds, result fully generated, each descriptor bonded exactly once, element order, once-only tokens, >= 1 repeat unit per block, exactly one bond between consecutive elements, end groups are leaves.", "As C04; well-posedness is by construction of the skeleton list."),
     ("C07", "Same runs as C04 with the drawn target a solver variable: z3 proves per block added_{n-1} <= t < added_n at the exact boundary (so > vs >= is decided), at least one unit, one draw per block, the compared mass is the mass this block added (token texts), unwinding assertion n <= N.", "As C04."),
     ("C08", "Same runs as C04: at every rng.choice call the candidate set equals the rule-admitted descriptors for that call site and the probability vector is proved equal to the reference law (w/sum w, uniform for equal weights incl. all zero, t_j/sum t for listed transitions over all descriptors) as polynomial identities; sums to 1; no NaN; left terminal's weight/list transferred to the prefix's descriptor.", "As C04; long-run frequencies are outside."),
-    ("C12", "Real Mixture constructor / setters / _estimate_system_molecular_weight on all kind assignments of k <= 3 (4) components with symbolic numbers parsed from symbolic text: soundness (relations exact, totals within 10x the code's tolerance, written values kept, unique solution of the linear specification), completeness for the documented determined forms, print/parse keeps masses.", "Bounds: k, value ranges, tolerance band excluded. Component objects are stand-ins for the estimate function; System text round trip on concrete chemistry."),
+    ("C12", "Real Mixture constructor / setters / _estimate_system_molecular_weight on all kind assignments of k <= 3 (5) components with symbolic numbers parsed from symbolic text: soundness (relations exact, totals within 10x the code's tolerance, written values kept, unique solution of the linear specification), completeness for the documented determined forms, print/parse keeps masses.", "Bounds: k, value ranges, tolerance band excluded. Component objects are stand-ins for the estimate function; System text round trip on concrete chemistry."),
     ("C13", "Real System.generator / System.generate with symbolic system mass, percentages, per-molecule masses and completeness flags (component generate stubbed), all picks: provenance, completeness, stop exactly at the system mass, refusal of non-generable systems, generability checked before generating.", "Bounds: <= 3 (4) yields, <= 2 (3) components; Molecule.generate stubbed (covered by C04-C08)."),
     ("C14", "The pick vector handed to rng.choice is captured as terms in the declared fractions; with symbolic mean masses z3 decides the renewal-reward identity p_i m_i sum f = f_i sum p_j m_j per component. The pinned tree violates it (pick probability = mass fraction): listed as known finding, any other law is a VIOLATION.", "Assumes the renewal-reward limit theorem; finite-size effects outside."),
     ("C09", "Reduced claim (plumbing): distribution parameters as numeral atoms with symbolic values inside symbolic text run through the real get_distribution / constructors / draw_mw / prob_mw with scipy's objects replaced by recorders; z3 proves parameter order and meaning per family (gauss loc/scale, uniform loc/scale=high-low, poisson mu, flory_schulz a, schulz_zimm Mn and z(Mw-Mn)=Mn, log_normal M/D), the caller's generator reaches rvs, dispatch by name, one draw per block; telescoping of interval probabilities for an uninterpreted monotone CDF.",
